@@ -15,8 +15,9 @@ interval test because everything is ≥ 0.  What is proved:
   (`trace_spec_full`);
 * for the CHECKER that is run on the real output of every generated case: `check_sound`
   (all three clauses);
-* regression witnesses for the two repaired defects (`tailcut_roworder_counterexample`,
-  `double_cut_shared_id_counterexample`) and that the repaired model passes on the same inputs.
+* regression witnesses for the three repaired defects that are visible in the model
+  (`tailcut_roworder_counterexample`, `double_cut_shared_id_counterexample`,
+  `min_zero_coincidence_counterexample`) and that the repaired model passes on the same inputs.
 
 `SpecFull` is proved (`trace_spec_full`). What ties the model to the code: the operator table
 (`opts_documented`), the exact row-by-row comparison of every generated case, and `chainsOk` on the
@@ -68,12 +69,12 @@ theorem numbering_documented :
 /-- the whole bodies of `get_nn_dist`, `add_chain_suffix`, `add_chain_prefix`, `trace_chains` — with
 parameters and local variables renamed to the documented names by binding position; comments,
 layout, type annotations, docstrings and the TEXT of exception/log messages ignored; `not (a > b)`
-read as `a <= b`; adjacent independent constant stores into different arrays in a fixed order — are
+read as `a <= b`; `a > b` written `b < a` and the operands of `==`/`!=` in a fixed order; adjacent independent constant stores into different arrays in a fixed order — are
 the documented ones (digest of the syntax tree). Every statement counts, also those in branches no
 generated case executes (`output_motl`, the feature-set test): an added, removed or edited statement
 breaks this theorem; a renaming of local variables, a type hint or a reworded message does not. -/
 theorem bodies_documented :
-    Gen.C19.bodyDigests = [1055860760988674168, 209518513822851188, 723751338633858201, 135505728656664680] := by
+    Gen.C19.bodyDigests = [1053225336426693692, 797955773933724064, 654672493014163097, 703771148035791459] := by
   decide
 
 /-- the signature defaults the statement and the adapter's omitted keywords depend on:
